@@ -136,6 +136,16 @@ Theorem derive_leaves_parent :
 Proof. exact (conj derive_leaves_parent_ok Lemmas.Memo.call_leaves_store). Qed.
 Print Assumptions derive_leaves_parent.
 
+(* CALLER-SUPPLIED INPUTS: the functions that mutate one of their parameters in place are exactly the
+   recorded ones (today: the Bech32 encoder's `data += checksum`), and at every call site the argument
+   is an object created for the call (a list concatenation or the fresh result of ConvertToBase32). *)
+Theorem bech32_encode_no_alias :
+  map (fun e => (fst (fst e), snd (fst e))) param_mutators = expected_param_mutators /\
+  forallb (fun s => snd s) param_mutator_call_sites = true /\
+  forallb (fun s => smem (snd (fst (fst s))) (map fst expected_param_mutators)) param_mutator_call_sites = true.
+Proof. exact (conj param_mutators_exact param_mutator_sites_fresh). Qed.
+Print Assumptions bech32_encode_no_alias.
+
 (* HISTORY INDEPENDENCE for the library: method keys (object, "Class.Method", args), fields
    (object, "Class.field"), writable = the generated mutable fields.  For every method that is not a
    listed offender, after any history of calls and mutator invocations the result equals that of a
